@@ -275,10 +275,11 @@ pub fn parse_choice_prefixes(
     let mut label = None;
     let mut conditions = Vec::new();
 
-    if let Some(after_open) = remainder.strip_prefix('(') {
-        let end = after_open.find(')').ok_or_else(|| {
-            CompilerError::invalid_source("choice label is missing ')'".to_owned())
-        })?;
+    // (anything else in parentheses is the start of the choice's text)
+    if let Some(after_open) = remainder.strip_prefix('(')
+        && let Some(end) = after_open.find(')')
+        && super::expression::is_identifier(after_open[..end].trim())
+    {
         label = Some(after_open[..end].trim().to_owned());
         remainder = after_open[end + 1..].trim_start();
     }
